@@ -176,7 +176,7 @@ class LArrElem:
         for k in range(len(self.arr.e)):
             self.arr.e[k].v = z3.If(self.idx == k, v, self.arr.e[k].v)
 
-VARIANTS = {'Option': ['None', 'Some'], 'Result': ['Ok', 'Err'], 'Poll': ['Ready', 'Pending']}
+VARIANTS = {'Option': ['None', 'Some'], 'Result': ['Ok', 'Err'], 'Poll': ['Ready', 'Pending'], 'ControlFlow': ['Continue', 'Break']}
 
 def clone_val(v):
     if isinstance(v, Struct):
@@ -190,6 +190,8 @@ def clone_val(v):
 INT_W = {'u8': 8, 'i8': 8, 'u16': 16, 'i16': 16, 'u32': 32, 'i32': 32, 'u64': 64, 'i64': 64, 'usize': 64, 'isize': 64, 'u128': 128, 'i128': 128}
 
 _STMT = {}
+ENUM_ALT = {}
+LATE_MODELS = set()
 _OPK = {}
 _BVC = {}
 def BV(v, w):
@@ -272,6 +274,14 @@ class Abort(Exception): pass       # path infeasible / cut
 class Unknown(Exception): pass     # unmodelled callee etc -> inconclusive
 
 # ----------------------------------------------------------------------------- executor
+def _variants(enums, name, variant):
+    vs = enums.get(name)
+    if vs is not None and variant in vs: return vs
+    for alt in ENUM_ALT.get(name, ()):
+        if variant in alt: return alt
+    return vs
+
+
 class Exec:
     def __init__(self, fns, models, structs=None, enums=None, resolver=None):
         self.fns = fns; self.models = models
@@ -376,7 +386,9 @@ class Exec:
         if s.startswith('no_retag '): s = s[9:]
         if s.startswith('copy '): return ('copy', s[5:])
         if s.startswith('move '): return ('move', s[5:])
-        if not s.startswith('const '): return ('place', s)
+        if not s.startswith('const '):
+            if not s.startswith(('_', '(', '*')): return ('opaque', s)      # a function item used as a value (e.g. an enum constructor passed to map_ok)
+            return ('place', s)
         body = s[6:].strip()
         if body in ('true', 'false'): return ('val', z3.BoolVal(body == 'true'))
         if body == '()': return ('val', UNIT)
@@ -477,7 +489,7 @@ class Exec:
         if t == 'discr':
             v = self.place(fr, k[1]).get()
             if not isinstance(v, Enum): raise Unknown('discriminant of %r' % v)
-            return BV(self.enums[v.name].index(v.variant), 64)
+            return BV(_variants(self.enums, v.name, v.variant).index(v.variant), 64)
         s = s.strip()
         m = re.match(r'(\w+)\((.*)\)$', s)
         if m and m.group(1) in ('Eq','Ne','Lt','Le','Gt','Ge','Add','Sub','Mul','Div','Rem','BitAnd','BitOr','BitXor','Shl','Shr',
@@ -489,7 +501,7 @@ class Exec:
         if s.startswith('discriminant('):
             v = self.place(fr, s[13:-1]).get()
             if not isinstance(v, Enum): raise Unknown('discriminant of %r' % v)
-            return z3.BitVecVal(self.enums[v.name].index(v.variant), 64)
+            return z3.BitVecVal(_variants(self.enums, v.name, v.variant).index(v.variant), 64)
         if s.startswith('&raw '):
             s = '&' + s.split(' ', 2)[2]
             if s.startswith('&(fake) '): s = '&' + s[8:]
@@ -533,10 +545,14 @@ class Exec:
             for part in split_top(m.group(2)):
                 k, v = part.split(': ', 1); fields[k] = self.operand(fr, v)
             psegs = [x for x in self.strip_generics(m.group(1)).split('::') if x]
-            if len(psegs) >= 2 and psegs[-2] in self.enums and psegs[-1] in self.enums[psegs[-2]]:
+            if len(psegs) >= 2 and psegs[-2] in self.enums and psegs[-1] in (_variants(self.enums, psegs[-2], psegs[-1]) or ()):
                 return Enum(psegs[-2], psegs[-1], list(fields.values()))      # struct-like enum variant: fields in declaration order
             order = self.structs.get(name)
-            if order is None: raise Unknown('struct layout ' + name)
+            if order is None:
+                # a struct whose declaration is generated by a macro (pin_project's Projection): MIR prints aggregate fields in
+                # declaration order, which is also the order field projections (.N) refer to
+                return Struct(name, list(fields.values()))
+            if set(order) != set(fields): raise Unknown('struct layout of %s does not match the aggregate %s' % (name, list(fields)))
             return Struct(name, [fields[k] for k in order])
         if s.endswith(')'):
             d = 0; j = len(s) - 1
@@ -550,7 +566,7 @@ class Exec:
         else:
             path = s; args = []
         segs = [x for x in re.sub(r'::<[^()]*?>(?=::|$)', '', self.strip_generics(path)).split('::') if x]
-        if len(segs) >= 2 and segs[-2] in self.enums and segs[-1] in self.enums[segs[-2]]:
+        if len(segs) >= 2 and segs[-2] in self.enums and segs[-1] in (_variants(self.enums, segs[-2], segs[-1]) or ()):
             return Enum(segs[-2], segs[-1], [self.operand(fr, a) for a in args])
         if len(segs) == 1:
             owners = [e for e, vs in self.enums.items() if segs[0] in vs]
@@ -603,6 +619,10 @@ class Exec:
             else:
                 if f.name.split('::')[-2:-1] == [ty] or (not ty) or f.name.endswith(ty + '::' + meth): good.append(f)
         if len(good) == 1: return good[0]
+        if not good and tr is None:
+            # free function re-exported under another path (e.g. actix_utils::future::ready -> future::ready::ready)
+            free = [f for f in cands if not f.impl_loc and '{closure' not in f.name and '(' not in f.name]
+            if len(free) == 1: return free[0]
         return None
 
     _src = {}
@@ -631,8 +651,18 @@ class Exec:
             hit = None
             for pat, fn in self.models:
                 if re.search(pat, callee_txt): hit = ('m', fn); break
+            if hit is not None and hit[1] in LATE_MODELS:
+                # generic fallbacks (identity From/Into, ...) only apply when the dump has no real implementation
+                f = self.resolve(self.callee_key(callee_txt))
+                if f is not None: hit = ('f', f)
             if hit is None:
                 f = self.resolve(self.callee_key(callee_txt))
+                if f is None:
+                    # inherent impl generated by a macro (pin_project!): `_::<impl T<..>>::m` -> the dumped fn named `..::m` whose receiver is T
+                    mm = re.search(r'<impl (\w+)(<.*>)?>::(\w+)$', callee_txt)
+                    if mm:
+                        c = [g for n, g in self.fns.items() if n.endswith('::' + mm.group(3)) and re.search(r'\b%s\b' % mm.group(1), g.types.get(1, ''))]
+                        if len(c) == 1: f = c[0]
                 if f is None: raise Unknown('unmodelled callee ' + callee_txt)
                 hit = ('f', f)
             cache[callee_txt] = hit
